@@ -55,6 +55,16 @@ class Git:
             # The project is not using git (or something else went wrong).
             return None
 
+        # Refresh the index's cached file information first. Otherwise
+        # `git diff-index` reports files that were only touched (their contents
+        # still match the commit) as changed.
+        subprocess.run(
+            ["git", "update-index", "-q", "--refresh"],
+            cwd=self._project_root,
+            stdout=subprocess.DEVNULL,
+            stderr=subprocess.DEVNULL,
+            check=False,
+        )
         is_clean = subprocess.run(
             ["git", "diff-index", "--quiet", "HEAD"],
             cwd=self._project_root,
